@@ -108,6 +108,17 @@ pub mod host {
             Ok(())
         }
     }
+    /// ABSTRACTION: what bookkeeping holds of one actor, as far as the ingest path asks: the
+    /// set of versions it fully knows (`contains_all` itself is the subject of the C02 harnesses)
+    #[derive(Clone, Copy)]
+    pub struct BookedVersions {
+        pub known: u32,
+    }
+    impl BookedVersions {
+        pub fn contains_all(&self, mut versions: RangeInclusive<CrsqlDbVersion>, _seqs: Option<&RangeInclusive<CrsqlSeq>>) -> bool {
+            versions.all(|v| v.0 < 32 && self.known & (1 << v.0) != 0)
+        }
+    }
     /// `Booked` / `Bookie`: lock wrappers whose guards are always immediately available
     #[derive(Clone)]
     pub struct Booked(pub BookedVersions);
@@ -144,7 +155,6 @@ pub mod host {
     }
 
     include!("sliced/base.rs");
-    include!("sliced/agent.rs");
     include!("sliced/broadcast.rs");
     include!("sliced/util.rs");
     include!("sliced/handlers.rs");
